@@ -225,18 +225,91 @@ def cubes_role(tier, seed):
     return out
 
 
-HARNESSES = {'role': {'fn': run_role, 'cubes': cubes_role,
+FILE_ROLES = ['admin', '\u00c4rztin', 'caf\u00c9', '\u0436\u0416x', 'a\u00e9-1']
+
+
+def run_file(ctx, place, fmt):
+    """The role rule comes from a real UTF-8 policy file (main file or
+    policy.d, YAML or JSON written without \\u escapes), role names with
+    non-ASCII letters; the process runs in a UTF-8 locale or in the C locale
+    (Python's UTF-8 mode on, as it is whenever the C locale is in force)."""
+    import json
+    import locale
+    import sys
+    import yaml
+    from oslo_policy import policy
+    common.set_ctx(ctx)
+    x = FILE_ROLES[int(ctx.choice('x', list(range(len(FILE_ROLES)))))]
+    form = str(ctx.choice('form', ['literal', 'placeholder']))
+    c_locale = bool(ctx.bool('c_locale'))
+    held = [r for r in (x.lower(), x.upper(), x.swapcase(), 'other')
+            if bool(ctx.bool('holds.' + ('lower' if r == x.lower() else
+                                         'upper' if r == x.upper() else
+                                         'swap' if r == x.swapcase()
+                                         else 'other')))]
+    match = x if form == 'literal' else 'pre-%(k)s'
+    target = {'k': x[4:]} if form == 'placeholder' else {}
+    if form == 'placeholder':
+        match = x[:4] + '%(k)s'
+    doc = {'p': 'role:' + match, 'q': 'role:other'}
+    if fmt == 'json':
+        text = json.dumps(doc, ensure_ascii=False)
+    else:
+        text = yaml.safe_dump(doc, allow_unicode=True)
+    env = common.PolicyEnv()
+    saved = locale.setlocale(locale.LC_CTYPE)
+    try:
+        fn = 'policy.' + fmt
+        if place == 'main':
+            env.write(fn, None, raw='')
+            with open(env.path(fn), 'w', encoding='utf-8') as f:
+                f.write(text)
+        else:
+            env.write(fn, None, raw='{}')
+            env.write('policy.d/r.' + fmt, None, raw='')
+            with open(env.path('policy.d/r.' + fmt), 'w',
+                      encoding='utf-8') as f:
+                f.write(text)
+        env.tick(env.path(fn))
+        enf = env.enforcer(policy_file=env.path(fn))
+        if c_locale and sys.flags.utf8_mode:
+            locale.setlocale(locale.LC_CTYPE, 'C')
+        want = x.lower() in [r.lower() for r in held]
+        try:
+            got = bool(enf.enforce('p', target, {'roles': list(held)}))
+        except Exception as exc:
+            got = 'raises %s' % type(exc).__name__
+        ctx.cover('file:' + place)
+        if c_locale:
+            ctx.cover('file:c-locale')
+        ctx.observe('decision', got)
+        ctx.require(got == want, 'file:decision',
+                    detail={'x': x, 'form': form, 'place': place,
+                            'fmt': fmt, 'c_locale': c_locale,
+                            'roles': held, 'got': got, 'want': want})
+    finally:
+        locale.setlocale(locale.LC_CTYPE, saved)
+        env.close()
+
+
+def cubes_file(tier, seed):
+    return [{'place': p, 'fmt': f} for p in ('main', 'dir')
+            for f in ('yaml', 'json')]
+
+
+HARNESSES = {'file': {'fn': run_file, 'cubes': cubes_file},
+             'role': {'fn': run_role, 'cubes': cubes_role,
                       'concretize_limit': 40000,
                       'budget_s': {'quick': 600, 'thorough': 3000}},
              'repeat': {'fn': run_repeat, 'cubes': cubes_repeat,
                         'concretize_limit': 40000}}
 REQUIRED_COVER = ['form:' + f for f in FORMS] + [
     'allowed', 'denied', 'missing-key', 'no-roles-entry', 'repeat:append',
-    'repeat:clear']
+    'repeat:clear', 'file:main', 'file:dir', 'file:c-locale']
 
 
 def cube_weight(hname, p):
-    if hname == 'repeat':
+    if hname in ('repeat', 'file'):
         return 10 ** 10
     if p.get('alpha') == 'small':
         return 10 ** 9 + p['xlen'] + p['nroles']     # first: cheap, decisive
